@@ -94,6 +94,13 @@ func (m FileMatcher) Match(file *ast.File, d data.Data) (data.Data, bool) {
 			return false
 		}
 
+		// Comments are never part of a match. Besides, a doc comment that
+		// an earlier change emptied has no position.
+		switch n.(type) {
+		case *ast.Comment, *ast.CommentGroup:
+			return false
+		}
+
 		d, ok := m.NodeMatcher.Match(reflect.ValueOf(n), d, nodeRegion(n))
 		if !ok {
 			return true
